@@ -24,6 +24,9 @@ import (
 	"sync/atomic"
 	"time"
 
+	"github.com/33cn/chain33/common"
+	"github.com/33cn/chain33/common/address"
+	"github.com/33cn/chain33/common/crypto"
 	_ "github.com/33cn/chain33/system"
 	"github.com/33cn/chain33/types"
 
@@ -70,6 +73,9 @@ type world struct {
 	keys   map[string]string
 	npw    int
 	nextra int
+	extKey string // a private key the caller supplies in SignRawTx requests (not in the wallet)
+	extPub []byte
+	nsign  int
 
 	// ghost
 	auth    bool
@@ -131,6 +137,12 @@ func newWorld(r *gen.Rand) *world {
 		k, err := w.e.w.ProcDumpPrivkey(a)
 		must(err, "DumpPrivkey")
 		w.keys[a] = k
+	}
+	if c, err := crypto.Load("secp256k1", -1); err == nil {
+		if k, err := c.GenKey(); err == nil {
+			w.extKey = common.ToHex(k.Bytes())
+			w.extPub = k.PubKey().Bytes()
+		}
 	}
 	if w.keys[acc.Acc.Addr] != imp {
 		must(fmt.Errorf("imported key %s dumped as %s", imp, w.keys[acc.Acc.Addr]), "import/dump")
@@ -475,6 +487,15 @@ func (w *world) exec(script []string, r *gen.Rand) {
 				continue
 			}
 			out.Op(line, w.classify(w.guardedBattery()))
+		case "sign":
+			if w.sp != nil || len(f) < 3 {
+				continue // needs wallet.mtx: would wait for the held call
+			}
+			if w.armedT && time.Since(w.unlockT) > time.Duration(timerSecs)*time.Second*4/10 {
+				out.Stat("sign_skipped_near_timeout", 1)
+				continue
+			}
+			out.Op(line, w.signReq(f[1], f[2]))
 		case "restart":
 			if w.sp != nil {
 				continue
@@ -748,6 +769,109 @@ func (w *world) sweep(oldOk, newValid, writeOk bool, r *gen.Rand) {
 	out.Stat("sweep_observations", int64(len(seen)))
 }
 
+// ---------------------------------------------------------------- SignRawTx with both key-selecting fields
+
+const foreignAddr = "1L1zEgVcjqdM2KkQixENd7SZTaudKkcyDu"
+
+func pubOfHexKey(hexkey string) []byte {
+	kb, err := common.FromHex(hexkey)
+	if err != nil {
+		return nil
+	}
+	c, err := crypto.Load("secp256k1", -1)
+	if err != nil {
+		return nil
+	}
+	k, err := c.PrivKeyFromBytes(kb)
+	if err != nil {
+		return nil
+	}
+	return k.PubKey().Bytes()
+}
+
+// signReq sends one SignRawTx request through the wallet's message loop and reports WHOSE key signed: the public key
+// inside the returned transaction is compared with the stored key of Addr and with the key supplied in Privkey.
+func (w *world) signReq(addrKind, privKind string) string {
+	w.nsign++
+	req := &types.ReqSignRawTx{TxHex: txHex, Expire: "0"}
+	switch addrKind {
+	case "wallet":
+		req.Addr = w.addrs[w.nsign%len(w.addrs)]
+	case "foreign":
+		req.Addr = foreignAddr
+	}
+	switch privKind {
+	case "valid":
+		req.Privkey = w.extKey
+	case "garbage":
+		req.Privkey = []string{"0x00", "0x5Z", "zz", "0x0102"}[w.nsign%4]
+	}
+	rep, err := w.e.w.GetAPI().ExecWalletFunc("wallet", "SignRawTx", req)
+	detail := fmt.Sprintf("SignRawTx{Addr:%q(%s) Privkey:%s}", req.Addr, addrKind, privKind)
+	if err != nil {
+		if addrKind == "none" && privKind == "garbage" {
+			return "ErrPrivkey"
+		}
+		return errName(err)
+	}
+	res := "signed:other"
+	var tx types.Transaction
+	if b, e := common.FromHex(rep.(*types.ReplySignRawTx).TxHex); e == nil && types.Decode(b, &tx) == nil && tx.Signature != nil {
+		pub := tx.Signature.Pubkey
+		switch {
+		case req.Addr != "" && w.keys[req.Addr] != "" && string(pub) == string(pubOfHexKey(w.keys[req.Addr])):
+			res = "signed:stored"
+		case privKind == "valid" && string(pub) == string(w.extPub):
+			res = "signed:supplied"
+		case address.PubKeyToAddr(address.DefaultID, pub) == req.Addr:
+			res = "signed:stored"
+		}
+	} else {
+		res = "signed:undecodable"
+	}
+	if !w.auth && res != "signed:supplied" {
+		out.Pred("C38|SignRawTx|signed-with-stored-key-without-successful-unlock",
+			detail+" on a wallet without a successful unlock since the last lock/timeout/restart -> "+res)
+	}
+	if !w.auth && res == "signed:supplied" && addrKind != "none" {
+		out.Pred("C38|SignRawTx|signed-request-naming-a-wallet-address-without-successful-unlock", detail+" -> "+res)
+	}
+	return res
+}
+
+var addrKinds = []string{"none", "wallet", "foreign"}
+var privKinds = []string{"none", "valid", "garbage"}
+
+func signMatrix() []string {
+	var s []string
+	for _, a := range addrKinds {
+		for _, p := range privKinds {
+			s = append(s, "sign "+a+" "+p)
+		}
+	}
+	return s
+}
+
+// every field combination in every lock state: never unlocked, unlocked, unlocked-then-locked, ticket-only unlock
+// (the flag stays locked, the password is cached), locked by the unlock timeout
+func signScripts() [][]string {
+	cat := func(parts ...[]string) []string {
+		var s []string
+		for _, p := range parts {
+			s = append(s, p...)
+		}
+		return s
+	}
+	m := signMatrix()
+	return [][]string{
+		cat([]string{"restart", "read"}, m),
+		cat([]string{"unlock 1 0 0", "read"}, m, []string{"lock", "read"}, m),
+		cat([]string{"unlock 1 1 0", "read"}, m),
+		cat([]string{"unlock 0 0 0", "unlock 1 1 0", "lock"}, m),
+		cat([]string{"unlock 1 0 1", "timer", "read"}, m),
+	}
+}
+
 // ---------------------------------------------------------------- script generators
 
 func witnessScript() []string {
@@ -775,7 +899,9 @@ func randomScript(r *gen.Rand, n int) []string {
 	pendUsed := false
 	for len(s) < n {
 		if held == "" {
-			switch r.Pick(18, 10, 14, 8, 30, 6, 24) {
+			switch r.Pick(18, 10, 14, 8, 30, 6, 24, 16) {
+			case 7:
+				s = append(s, "sign "+addrKinds[r.Intn(3)]+" "+privKinds[r.Intn(3)])
 			case 6:
 				oldOk := r.Chance(3, 5)
 				s = append(s, fmt.Sprintf("spsweep %d %d %d", b01(oldOk), b01(r.Chance(9, 10)), b01(r.Chance(5, 6))))
@@ -1233,6 +1359,8 @@ func main() {
 		}
 		runScripts(r, ss, k%2 == 0)
 	}
+	runScripts(r, signScripts(), true)
+	runScripts(r, signScripts(), false)
 	phase("scripts")
 	runScripts(r, timerScripts(), true)
 	phase("timers")
